@@ -12,6 +12,17 @@ FUNCS = ['tatsu.peg.base:Grammar.parse/_do_parse/new_parse_config/newctx/optimiz
 
 BUDGET = {0: 40, 1: 40, 2: 90, 3: 300, 4: 1500, 5: 3600}
 
+# rule includes, based rules and @override rules, "taken as their documented expansions": the real grammar text vs the expansion given to the reference
+from ..grammars import A, C, INCL, N, OPT, S, T   # noqa: E402
+EXPANSIONS = [
+    ('based_rule', "start: d | b ;\nb: x='a' ;\nd < b: y='b' ;\n",
+     [('start', A(C('d'), C('b'))), ('b', N('x', T('a'))), ('d', S(INCL('b'), N('y', T('b'))))]),
+    ('based_rule_plain', "start: d ['c'] ;\nb: 'a' ['b'] ;\nd < b: 'c' ;\n",
+     [('start', S(C('d'), OPT(T('c')))), ('b', S(T('a'), OPT(T('b')))), ('d', S(INCL('b'), T('c')))]),
+    ('override_rule', "start: r ['a'] ;\nr: 'a' ;\n@override\nr: 'b' | 'a' 'b' ;\n",
+     [('start', S(C('r'), OPT(T('a')))), ('r', A(T('b'), S(T('a'), T('b'))))]),
+]
+
 
 def obs_for(name, rules, lengths, start=None, budget_scale=1.0, group=''):
     out = []
@@ -31,6 +42,10 @@ def plan(tier, seed):
             obs += obs_for(name, rules, range(0, 4))
         for name, rules, start in grammars.START_VARIANTS:
             obs += obs_for(name, rules, range(0, 4), start=start)
+        for name, gtext, ref_rules in EXPANSIONS:
+            for n in range(0, 4):
+                obs.append(Ob(name=f'{name}_L{n}', factory='vt.pegbody:make_peg', spec={'grammar': name, 'gtext': gtext, 'ref_rules': ref_rules, 'n': n},
+                              params=[(f'c{i}', 0, UNI) for i in range(n)], budget=BUDGET[n], group=name))
         # the slice is chosen by VERIF_SEED among 20 slices whose agreement with the reference was validated natively (tools/calib/enumcheck.py)
         for name, rules in grammars.enumerated(seed % 20, 8):
             obs += obs_for(name, rules, range(0, 3))
@@ -39,6 +54,10 @@ def plan(tier, seed):
             obs += obs_for(name, rules, range(0, 5))
         for name, rules, start in grammars.START_VARIANTS:
             obs += obs_for(name, rules, range(0, 5), start=start)
+        for name, gtext, ref_rules in EXPANSIONS:
+            for n in range(0, 5):
+                obs.append(Ob(name=f'{name}_L{n}', factory='vt.pegbody:make_peg', spec={'grammar': name, 'gtext': gtext, 'ref_rules': ref_rules, 'n': n},
+                              params=[(f'c{i}', 0, UNI) for i in range(n)], budget=BUDGET[n], group=name))
         for k in range(8):
             for name, rules in grammars.enumerated((seed + k) % 20, 8):
                 obs += obs_for(name, rules, range(0, 4))
